@@ -20,7 +20,24 @@ def bump_fm_balance(e):
     b[d] = bump(b[d])
 
 
+def bump_pm_balance(e):
+    b = e["post"]["bal"]["pm"]
+    for k in sorted(b.keys()):
+        if b[k]:
+            b[k] = bump(b[k])
+            return
+    k = sorted(b.keys())[0]
+    b[k] = bump(b[k])
+
+
+def bump_ret(e):
+    e["attrs"]["ret"] = bump(e["attrs"]["ret"])
+
+
 RULES = {
+    "pool": [("pm_swap", lambda e: e.get("ok"), bump_pm_balance, "post.bal.pm[denom] +- 1 after a swap"),
+             ("pm_swap", lambda e: e.get("ok"), bump_ret, "logged return amount of a swap +- 1"),
+             ("pm_withdraw", lambda e: e.get("ok"), bump_pm_balance, "post.bal.pm[denom] +- 1 after a withdrawal")],
     "farm": [("fm_pos_create", lambda e: e.get("ok"), bump_fm_balance, "post.bal.fm[denom] +- 1 after a position creation"),
              ("fm_claim", lambda e: e.get("ok"), bump_fm_balance, "post.bal.fm[denom] +- 1 after a claim")],
     # family -> list of (event kind, predicate, mutator, description)
